@@ -3,10 +3,12 @@
 package vrun
 
 import (
+	"archive/zip"
 	"bufio"
 	"bytes"
 	"encoding/json"
 	"fmt"
+	"io"
 	"os"
 	"os/exec"
 	"path/filepath"
@@ -494,6 +496,52 @@ type TreeEntry struct {
 	Mode   os.FileMode
 	Size   int64
 	Target string
+}
+
+// UnzipMetadata restores, for the monitors, the metadata files that an mrp run
+// with --zip moved into <psdir>/_metadata.zip on completion (files already
+// present are left alone, the archive stays). Returns the number of entries
+// restored.
+func (c *Case) UnzipMetadata() (int, error) {
+	zp := filepath.Join(c.PsDir, "_metadata.zip")
+	zr, err := zip.OpenReader(zp)
+	if err != nil {
+		if os.IsNotExist(err) {
+			return 0, nil
+		}
+		return 0, err
+	}
+	defer zr.Close()
+	n := 0
+	for _, f := range zr.File {
+		dst := filepath.Join(c.PsDir, f.Name)
+		if !strings.HasPrefix(dst, c.PsDir+string(os.PathSeparator)) {
+			return n, fmt.Errorf("zip entry %q escapes the pipestance", f.Name)
+		}
+		if _, err := os.Lstat(dst); err == nil {
+			continue
+		}
+		rc, err := f.Open()
+		if err != nil {
+			return n, err
+		}
+		b, err := io.ReadAll(rc)
+		rc.Close()
+		if err != nil {
+			return n, err
+		}
+		os.MkdirAll(filepath.Dir(dst), 0755)
+		if f.Mode()&os.ModeSymlink != 0 {
+			err = os.Symlink(string(b), dst)
+		} else {
+			err = os.WriteFile(dst, b, 0644)
+		}
+		if err != nil {
+			return n, err
+		}
+		n++
+	}
+	return n, nil
 }
 
 // Tree lists the pipestance directory.
